@@ -247,6 +247,12 @@ def r6(run, db):
             wt = [c for c in f.calls() if c.callee == ws[0].id]
             good = len(rq) == 1 and len(wt) == 1 and not f.in_cycle(rq[0].site) and f.reaches_after(rq[0].site, wt[0].site) and not f.reaches_after(wt[0].site, rq[0].site)
             run.check(good, nm + "|request-once-then-wait", "%s issues %s once and then waits" % (nm, req), "%s: %d requests, %d waits" % (nm, len(rq), len(wt)), f.where())
+            if wt:
+                aw = await_of_call(f, wt[0])
+                oks = [site for site, s_ in f.aggregates(adt="std::result::Result", variant="Ok")]
+                okd = bool(aw) and bool(oks) and all(aw[0].completes_before(s_) for s_ in oks)
+                run.check(okd, nm + "|ok-only-after-wait", "%s returns Ok only after wait() completed (an Ok always means the actor has fully stopped)" % nm,
+                          "%s can return Ok(()) without having waited (e.g. when the one-shot port was already consumed): a repeated/late call reports success while the actor is still running post_stop" % nm, f.where())
     # timeout variants: the inner future is the argument of the crate's timeout; the timeout arm performs no request
     for nm in ("kill_and_wait", "stop_and_wait", "drain_and_wait", "wait"):
         fs = [f for f in db.crate_fns("ractor") if re.search(r"ActorCell::%s::\{closure#0\}$" % nm, f.id)]
